@@ -24,9 +24,9 @@ RULE = (
     "case. Distinct = distinct (encoded bytes, op sequence)."
 )
 ASSUMPTIONS = [
-    "seek()'s return value is not judged (the statement speaks of read results and the reported position)",
+    "seek() must return the new position in the decoded bytes, as any file object does",
     "positions before the start of the decoded region (negative logical offsets) are not exercised",
-    "stubs contain additional ff ff ff sequences only in stages that carry both the marker and a correct size field (with the marker alone the true end of the stub is ambiguous)",
+    "stubs contain additional ff ff ff sequences (e.g. backward calls 'e8 xx ff ff ff') only in stages that carry a correct size field; with the marker alone the true end of the stub is ambiguous and not judged",
 ]
 REQUIRED_MONITORS = ["history.model", "contract.read.position", "detect.offset", "detect.reject"]
 
@@ -37,8 +37,10 @@ def apply_ops(xf, model, ops):
         kind = op[0]
         if kind == "seek":
             _, off, whence = op
-            model.seek(off, whence)
-            xf.seek(off, whence)
+            want_pos = model.seek(off, whence)
+            got_pos = xf.seek(off, whence)
+            if got_pos != want_pos:
+                return "history.model", f"op#{i} seek({off}, {whence}) returned {got_pos}, a file over the decoded bytes returns {want_pos}", i
         elif kind == "read":
             n = op[1]
             want = model.read() if n is None else model.read(n)
@@ -249,14 +251,16 @@ def run_shard(shard, ctx):
             if rng.random() < 0.25:
                 # nonce offsets at the very end of the documented search range (first 1024 bytes)
                 stub = P.filler(rng, rng.choice([1012, 1013, 1014, 1015, 1016, 1017] if marker else [1016, 1017, 1018, 1019, 1020, 1021, 1022, 1023]))
-            if marker and size_ok and not trailing and rng.random() < 0.4 and len(stub) >= 4:
+            if size_ok and not trailing and rng.random() < 0.4 and len(stub) >= 4:
                 # decoy end-of-stub markers inside the stub: the offset confirmed by marker AND size field must still win
                 b = bytearray(stub)
                 for _ in range(rng.randrange(1, 4)):
                     pos = rng.randrange(0, len(b) - 2)
                     b[pos : pos + 3] = b"\xff\xff\xff"
-                if rng.random() < 0.3:
+                if marker and rng.random() < 0.3:
                     b[-1:] = b"\xff"  # stub ending in ff: the marker region becomes ff ff ff ff
+                if not marker and b[-3:] == b"\xff\xff\xff":
+                    b[-1] = 0x41  # without a marker the stub must not end in one by accident
                 stub = bytes(b)
             check_case({"op": "detect", "plain": plain, "nonce": rng.randbytes(4), "stub": stub, "marker": marker,
                         "size_ok": size_ok, "trailing": trailing, "prepend": prepend}, ctx)
